@@ -1259,13 +1259,13 @@ class _SetIndexPost(Blockwise):
         if self.frame.npartitions < len(divisions) - 1:
             part_filter = list(self.frame.find_operations(PartitionsFiltered))
             if len(part_filter) > 0:
+                partitions = part_filter[0]._partitions
+                # the selection ends with the division that closes its last
+                # partition (as in ``Partitions._divisions``), which is not the
+                # last division of the frame unless the last partition is selected
                 return tuple(
-                    [
-                        div
-                        for i, div in enumerate(divisions)
-                        if i in part_filter[0]._partitions
-                    ]
-                    + [divisions[-1]]
+                    [div for i, div in enumerate(divisions) if i in partitions]
+                    + [divisions[max(partitions) + 1]]
                 )
             else:
                 return self.frame.divisions
